@@ -698,7 +698,8 @@ func (r *MetricsResult) Merge(localRes *MetricsResult) error {
 // The groupID string should be in the format of "metricName{tk1:tv1,tk2:tv2,..."
 // As per the flow, there would be no trailing "}" in the groupID string
 func removeMetricNameFromGroupID(groupID string) string {
-	stringVals := strings.Split(groupID, "{")
+	// split at the first "{" only: a label value may contain one (path:/users/{id})
+	stringVals := strings.SplitN(groupID, "{", 2)
 	if len(stringVals) != 2 {
 		return groupID
 	} else {
@@ -707,7 +708,8 @@ func removeMetricNameFromGroupID(groupID string) string {
 }
 
 func ExtractMetricNameFromGroupID(groupID string) string {
-	stringVals := strings.Split(groupID, "{")
+	// split at the first "{" only: a label value may contain one (path:/users/{id})
+	stringVals := strings.SplitN(groupID, "{", 2)
 	if len(stringVals) != 2 {
 		return groupID
 	} else {
